@@ -6,6 +6,24 @@ independent computation reproduces, 0x03; len(p) == number of bytes; the same ne
 field, ones-complement checksum) and in HSTRP with 0..4 options (independent TLV walk); parsing the
 bytes and serialising again gives the same bytes and equal fields.
 Correspondence: the Lean model (Model/Hdap, Hrnp, Hstrp) answers the same build / parse lines.
+
+Input classes beyond random field values (each counted in the evidence histogram):
+* built-fields: every PDU is built from specification values kept apart from the classes under test (IP, Text, Gps);
+  the attributes of the constructed object must be those values (a constructor that rewrites its arguments
+  consistently is invisible to serialise / parse checks on the object alone);
+* special tokens (token:*): a dictionary of code points / octet patterns that text shortcuts treat specially (byte
+  order marks U+FEFF / U+FFFE, NUL, CR LF, surrogate pairs, unpaired surrogates, U+FFFF, combining marks and other
+  normalisation / case-mapping sensitive characters, whitespace, frame delimiters 0x03 / 0x7E / "2B") at start /
+  middle / end of every text-like field (TMP text as str AND as octets, short data, option data, RCP raw payloads /
+  talker alias / fixed-width raw values, HSTRP option data);
+* object histories (hist:*): one object observed (len, as_bytes, repr, accessors, kept HRNP / HSTRP wrapper), changed
+  (attribute assignment to a value of the same / another size, in-place change of RadioIP / GPSData / settings dict /
+  option list / packet type, opcode switch, parse or deepcopy and carry on) and observed again; after every step the
+  property is evaluated on the object as it is now, its bytes are compared with a PDU built afresh from the same
+  field values, with packets written out by hand, and with the model; bytes must change exactly when a serialised
+  field changed;
+* held objects (held:*): PDUs and the objects histories leave behind are kept alive and must still serialise to the
+  recorded bytes after everything else ran (no state shared between objects).
 """
 import copy
 import enum
@@ -19,7 +37,7 @@ from datetime import date, time
 from common import impl_error
 
 PROP = "C12"
-MODULES = ["C12", "C12a", "C12b"]
+MODULES = ["C12", "C12a", "C12b", "C12c"]
 GEN = ["Hytera"]
 
 TESTS = os.path.join(os.environ.get("VERIF_REPO") or "/repo", "okdmr/tests/dmrlib/hytera")
@@ -779,9 +797,10 @@ def token_cases(rng):
     return out
 
 
-def gen_options(rng, k):
+def gen_option_list(rng, k):
+    """k options as (command member, data): what an HSTRPOptions object is filled from"""
     H = L.hstrp
-    o = H.HSTRPOptions()
+    out = []
     for _ in range(k):
         c = rng.choice(list(H.HSTRPOptionType))
         natural = {H.HSTRPOptionType.RTP: 0, H.HSTRPOptionType.DeviceID: 4}.get(c, 1)
@@ -789,7 +808,21 @@ def gen_options(rng, k):
         d = gen_bytes(rng, n)
         if rng.random() < 0.1:
             d = place(BYTE_TOKENS[rng.choice(BYTE_TOKEN_NAMES)], d[:200], rng.choice(POSITIONS[1:]))
+        out.append((c, d))
+    return out
+
+
+class OptionsState(Exception):
+    """a new HSTRPOptions object filled with k options holds something else (state shared between objects)"""
+
+
+def gen_options(rng, k, spec=None):
+    o = L.hstrp.HSTRPOptions()
+    spec = gen_option_list(rng, k) if spec is None else spec
+    for c, d in spec:
         o.add_option(c, d)
+    if list(o.options) != spec:
+        raise OptionsState(f"{len(o.options)} options held after adding {len(spec)} to a new object")
     return o
 
 
@@ -923,6 +956,9 @@ def check_hrnp(ctx, rng, p, b, inp, pairs):
     if isinstance(hb, Exc):
         ctx.fail("hrnp-serialise-raises", inp, f"HRNP.as_bytes raised {hb}", actual=repr(hb))
         return
+    exp_head = bytes([0x7E, kw.get("version", 4), kw["block_number"], 0x00, kw["source"], kw["destination"]]) + kw["packet_number"].to_bytes(2, "big")
+    if hb[:8] != exp_head:
+        ctx.fail("hrnp-header", inp, "HRNP header octets differ from the values the packet was built from", expected=exp_head.hex(), actual=hb[:8].hex())
     if b is not None:
         lf = int.from_bytes(hb[8:10], "big")
         if not (lf == len(hb) == 12 + len(b)) or call(len, h) != len(hb):
@@ -969,13 +1005,22 @@ def hrnp_fields(h):
 
 def check_hstrp(ctx, rng, p, b, inp, pairs, k=None):
     H = L.hstrp
-    k = rng.choice([0, 1, 2, 2, 3, 4]) if k is None else k
-    opts = gen_options(rng, k)
+    if k is None:
+        k = rng.choice([0, 1, 2, 2, 3, 4]) if rng.random() < 0.96 else rng.choice([9, 17, 40])  # long chains now and then
+        if k > 4:
+            ctx.count("hstrp:long-option-chain")
+    spec = gen_option_list(rng, k)
+    opts = call(gen_options, rng, k, spec)
+    if isinstance(opts, Exc):
+        # stop here: a list that grows with every object built would only slow everything down
+        ctx.fail("hstrp-options-state", dict(inp, nesting="HSTRP", hstrp={"options": ",".join(f"{c.value}:{hx(d)}" for c, d in spec) or "-"}),
+                 "a new HSTRPOptions object filled with these options does not hold exactly these options", expected=len(spec), actual=repr(opts))
+        return
     t = gen_pkt_type(rng, k, p is not None)
     sn = pick_int(rng, 65535)
     use_none = k == 0 and rng.random() < 0.5
     s = H.HSTRP(pkt_type=t, sn=sn, options=None if use_none else opts, payload=p, version=rng.choice([0, 0, 0, 1, 255]))
-    inp = dict(inp, nesting="HSTRP", hstrp={"type": t.as_bytes()[0], "sn": sn, "options": opts_s(opts), "version": s.version})
+    inp = dict(inp, nesting="HSTRP", hstrp={"type": t.as_bytes()[0], "sn": sn, "options": ",".join(f"{c.value}:{hx(d)}" for c, d in spec) or "-", "version": s.version})
     sb = call(s.as_bytes)
     if isinstance(sb, Exc):
         ctx.fail("hstrp-serialise-raises", inp, f"HSTRP.as_bytes raised {sb}", actual=repr(sb))
@@ -987,7 +1032,7 @@ def check_hstrp(ctx, rng, p, b, inp, pairs, k=None):
     rest = sb[6:]
     if k > 0:
         walked = call(spec_walk_options, rest)
-        want = [(c.value, d) for c, d in opts.options]
+        want = [(c.value, d) for c, d in spec]  # what was added, not what the object says it holds
         if isinstance(walked, Exc) or walked[0] != want:
             ctx.fail("hstrp-options", inp, "independent TLV walk does not find the option list", expected=[(c, d.hex()) for c, d in want], actual=repr(walked))
         else:
@@ -1157,9 +1202,13 @@ class State:
             self.s.payload = self.p
 
     def reset_ownership(self, copied=False):
+        """may the GPS record / settings dict be changed in place?  Not while they are the constructor's shared default objects"""
         p = self.p
-        self.own_gps = copied or (isinstance(p, L.lp.LocationProtocol) and p.specific_service == L.lp.LocationProtocolSpecificService.StandardReport)
-        self.own_dict = copied or (isinstance(p, L.rcp.RadioControlProtocol) and p.opcode == L.rcp.RCPOpcode.StatusChangeNotificationRequest)
+        if copied:
+            self.own_dict = True  # a deep copy has its own dict; a copied default GPS record still holds the import date: left alone
+            return
+        self.own_gps = isinstance(p, L.lp.LocationProtocol) and p.specific_service == L.lp.LocationProtocolSpecificService.StandardReport
+        self.own_dict = isinstance(p, L.rcp.RadioControlProtocol) and p.opcode == L.rcp.RCPOpcode.StatusChangeNotificationRequest
 
 
 def hstrp_make_consistent(s):
@@ -1281,8 +1330,9 @@ def apply_step(st, step):
 # ---- choosing the next step --------------------------------------------------------------------
 
 
-def other_bytes(rng, cur: bytes, sizes, same_p=0.3, fixed=None):
-    """another octet string: same length with other content, or one of the other sizes; sometimes a special token inside"""
+def other_bytes(rng, cur: bytes, sizes, same_p=0.3, fixed=None, cap=None):
+    """another octet string: same length with other content, or one of the other sizes; sometimes a special token inside
+    (never longer than cap, the most the field's length octet can say)"""
     if fixed is not None:
         n = fixed
     elif rng.random() < same_p:
@@ -1292,7 +1342,9 @@ def other_bytes(rng, cur: bytes, sizes, same_p=0.3, fixed=None):
     b = gen_bytes(rng, n)
     if fixed is None and rng.random() < 0.2:
         b = place(BYTE_TOKENS[rng.choice(BYTE_TOKEN_NAMES)], b, rng.choice(POSITIONS[1:]))
-    if b == cur and n:
+    if cap is not None:
+        b = b[:cap]
+    if b == cur and len(b):
         b = bytes([b[0] ^ 1]) + b[1:]
     return b
 
@@ -1347,8 +1399,9 @@ def mutation(rng, st):
         else:
             c += [newopt if p.option_data is None else setv("has_option", True)] * 3
         newtext = setv("text_data", Text(gen_cps(rng), False).octets() if rng.random() < 0.7 else b"")
-        if len(dec(newtext["value"])) == len(p.text_data):
-            newtext = setv("text_data", p.text_data + spec_utf16le(TEXT_TOKENS[rng.choice(TEXT_TOKEN_NAMES)]))
+        if len(dec(newtext["value"])) == len(p.text_data) or rng.random() < 0.3:
+            cur = spec_utf16le_decode(p.text_data[: len(p.text_data) & ~1])
+            newtext = setv("text_data", spec_utf16le(place(TEXT_TOKENS[rng.choice(TEXT_TOKEN_NAMES)], cur, rng.choice(POSITIONS[1:]))))
         if rng.random() < 0.25 and len(p.text_data) >= 2:  # same size, other content
             newtext = setv("text_data", bytes([p.text_data[0] ^ 0x01]) + p.text_data[1:])
         newshort = setv("short_data", other_bytes(rng, p.short_data, [0, 1, 2, 7, 32, 200]))
@@ -1388,7 +1441,7 @@ def mutation(rng, st):
             n = rng.choice([0, 1, 2, 5, 10, 127])
             f = [setv("broadcast_config_raw", bytes([n]) + gen_bytes(rng, 2 * n))]
         elif o == O.SendTalkerAliasRequest:
-            f = [setv("talker_alias_data", other_bytes(rng, p.talker_alias_data, [0, 1, 6, 31, 250]))] * 4
+            f = [setv("talker_alias_data", other_bytes(rng, p.talker_alias_data, [0, 1, 6, 31, 250], cap=255))] * 4
             f += [setv("call_type", rng.choice(list(C.RCPCallType))), setv("sender_id", id32()), setv("target_id", id32()),
                   setv("talker_alias_data_format", rng.choice(list(L.TAF)))]
         elif o == O.SendTalkerAliasReply:
@@ -1486,7 +1539,7 @@ def next_step(rng, st, force=None):
     if st.s is not None:
         H = L.hstrp
         cmd = rng.choice(list(H.HSTRPOptionType)).value
-        data = other_bytes(rng, b"", [0, 1, 4, 7, 100, 255]).hex()
+        data = other_bytes(rng, b"", [0, 1, 4, 7, 100, 255], cap=255).hex()  # one length octet
         c += [{"op": "opts-add", "cmd": cmd, "data": data}] * 4
         k = len(st.s.options.options) if st.s.options is not None else 0
         if k:
@@ -1610,9 +1663,7 @@ def start_state(tuple0, origin):
     p = build_from_tuple(tuple0)
     if origin == "parsed":
         p = L.hdap.HDAP.from_bytes(p.as_bytes())
-    st = State(p)
-    st.own_gps = isinstance(p, L.lp.LocationProtocol) and (origin == "parsed" and p.specific_service == L.lp.LocationProtocolSpecificService.StandardReport or len(tuple0.split(" ")) > 5)
-    return st
+    return State(p)
 
 
 def run_history(ctx, rng, tuple0, origin, pairs, scripted):
@@ -1630,18 +1681,26 @@ def run_history(ctx, rng, tuple0, origin, pairs, scripted):
         if scripted:  # the canonical pattern first: observe, change a field, observe; then free
             force = ("observe", "mutate", "observe")[i] if i < 3 else None
         step = next_step(rng, st, force)
-        before = call(st.p.as_bytes)
+        before, rel_before = call(st.p.as_bytes), safe(relevant_tuple, st.p)
         r = call(apply_step, st, step)
         steps.append(step)
         ctx.count("hist-step:" + step["op"])
         if isinstance(r, Exc):
             ctx.fail("history-step-raises", dict(inp0, history=list(steps)), f"step {json.dumps(step)} on an in-range object raised {r}", actual=repr(r))
             return None
-        if step["op"] in MUTATING:
-            after = call(st.p.as_bytes)
-            if not isinstance(before, Exc) and not isinstance(after, Exc):
+        after, rel_after = call(st.p.as_bytes), safe(relevant_tuple, st.p)
+        if not isinstance(before, Exc) and not isinstance(after, Exc) and not rel_after.startswith("ERR"):
+            # serialisation is a function of the serialised fields, and an injective one (parse . serialise = id):
+            # the bytes change exactly when a field of the PDU changed — needs no second object, so a stale answer
+            # shared by all objects with the same key is seen as well
+            if (rel_before == rel_after) != (before == after):
+                ctx.fail("history-stale-bytes", dict(inp0, history=list(steps), fields=safe(pdu_tuple, st.p), service=svc),
+                         "as_bytes() changed although no serialised field changed" if rel_before == rel_after else "a serialised field changed but as_bytes() still gives the earlier bytes",
+                         expected=[rel_before, rel_after], actual=[before.hex(), after.hex()])
+                return None
+            if step["op"] in MUTATING:
                 ctx.count("hist:mutation-size-" + ("changed" if len(before) != len(after) else "kept"))
-        if not verify_state(ctx, st, dict(inp0, history=list(steps)), pairs, deep=(i == n - 1 or i % 3 == 2)):
+        if not verify_state(ctx, st, dict(inp0, history=list(steps)), pairs, deep=(i == n - 1 or i % 3 == 2 or step["op"] in MUTATING)):
             return None
     ctx.case(("history", tuple0, origin, json.dumps(steps, sort_keys=True)))
     return st
@@ -1855,8 +1914,16 @@ def run(ctx):
         "RCP 17) with boundary-favouring integers (radio ids 0..2^24-1, request/ids 0..2^32-1), random UTF-16 text incl. "
         "surrogate pairs and NULs, option data 0..300 octets, GPS values over the NMEA range on the 10^-4 grid, every PDU alone, "
         "nested in HRNP DATA (random addresses / numbers) and nested in HSTRP with 0..4 options of 0..255 octets and a random "
-        "consistent packet type; plus mutated / truncated serialisations for the parsers' correspondence. A case is one PDU "
-        "(distinct = distinct field tuple); all are non-trivial."
+        "consistent packet type (now and then 9..40 options); plus mutated / truncated serialisations for the parsers' correspondence. "
+        "Every PDU is built from specification values and the constructed attributes are compared with them. Special-token "
+        "dictionary: ~45 code-point tokens (BOM U+FEFF/U+FFFE, NUL, CR LF, surrogate pairs, unpaired surrogates, U+FFFF, combining / "
+        "normalisation / case sensitive characters, whitespace, frame delimiters) x {alone, start, middle, end} of a message text handed "
+        "over as str and as octets, ~19 octet tokens x 4 positions x every opaque byte-string field; the same tokens are mixed into the "
+        "random stream. Object histories: 3..10 steps on ONE object out of {len, as_bytes, repr, accessors, wrap in / observe a kept HRNP "
+        "or HSTRP, assign a field (same / other size), change a RadioIP / GPSData / settings dict / option list / packet type in place, "
+        "switch the opcode, parse or deepcopy and carry on, change the wrapper's own fields}, started from a built or a parsed PDU of "
+        "every service, property + fresh-object + hand-written packet + model compared after every step; objects are kept and "
+        "re-verified at the end. A case is one PDU (distinct = distinct field tuple and text hand-over) or one history; all are non-trivial."
     )
     ctx.trusted_base += [
         "Lean 4.33 kernel",
@@ -1864,7 +1931,9 @@ def run(ctx):
         "hand-written model Model/Hdap.lean, Hrnp.lean, Hstrp.lean tied to the code by this run's correspondence",
         "Python float formatting / parsing of the LP ASCII fields is modelled over exact decimals (latitude/longitude in 10^-4 units, "
         "speed as its repr digits) and only cross-checked by the correspondence, not verified",
-        "Python's UTF-16 codec (text is an opaque byte string in the model), datetime.strftime, bitarray",
+        "Python's strict UTF-16-LE codec is modelled (Model/Hdap.lean utf16le, theorems in Props/C12c.lean) and compared on every text handed over as str "
+        "(`tmp.text` lines) and with a hand-written encoder in the oracle; datetime.strftime, bitarray are trusted",
+        "the model has no object state: histories are tied to it by evaluating the model on the object's current field values after every step",
     ]
     ctx.assumptions += [
         "in-range fields: enum-typed attributes are members, integers fit their wire width, GPS coordinates are multiples of 10^-4 "
@@ -1873,6 +1942,10 @@ def run(ctx):
         "status-change settings are a dict (distinct targets)",
         "HSTRP packets are 'consistent': options only with the option bit and without the heartbeat bit; option bit without options only without payload",
         "fields compared are the attributes the opcode serialises (relevant_tuple); attributes an opcode never writes are not fields of that PDU",
+        "text: a str of Unicode scalar values, or any even number of octets (unpaired surrogates travel as octets only; the strict codec refuses them in a str); "
+        "odd-length octet strings are not UTF-16 text and appear only in the parsers' correspondence",
+        "object histories keep every intermediate state in range (option data present before the option flag is set, an opcode is switched only to one whose "
+        "fields the object holds) and never change the constructors' shared default objects (GPSData.zero(), the default settings dict) in place",
     ]
     do_corr = (not ctx.search_only) and ctx.driver_ok
     pairs = [] if do_corr else None
@@ -2001,7 +2074,9 @@ def run(ctx):
                 pairs.append((f"hrnp.parse {hx(d)}", impl_hrnp_parse(d)))
             elif layer == "hstrp":
                 k = rng.choice([0, 1, 2, 3])
-                opts = gen_options(rng, k)
+                opts = call(gen_options, rng, k)
+                if isinstance(opts, Exc):
+                    continue
                 t = L.hstrp.HSTRPPacketType(*[rng.random() < 0.4 for _ in range(6)])  # not necessarily consistent
                 sb = bytearray(L.hstrp.HSTRP(pkt_type=t, sn=rng.randrange(65536), options=opts, payload=p if rng.random() < 0.7 else None).as_bytes())
                 r = rng.random()
@@ -2018,7 +2093,10 @@ def run(ctx):
                     continue
                 pairs.append((f"hstrp.parse {hx(sb)}", impl_hstrp_parse(sb)))
             else:
-                ob = bytearray(gen_options(rng, rng.choice([1, 2, 3, 4])).as_bytes() + gen_bytes(rng, rng.choice([0, 0, 3])))
+                o4 = call(gen_options, rng, rng.choice([1, 2, 3, 4]))
+                if isinstance(o4, Exc):
+                    continue
+                ob = bytearray(o4.as_bytes() + gen_bytes(rng, rng.choice([0, 0, 3])))
                 r = rng.random()
                 if r < 0.4:
                     ob = ob[: rng.randrange(len(ob) + 1)]
@@ -2034,9 +2112,26 @@ def run(ctx):
             if L.hdap.HDAP.get_hdap_checksum(d)[0] != spec_hdap_checksum(d):
                 ctx.fail("frame-checksum", {"layer": "hdap", "checked": d.hex()}, "get_hdap_checksum differs from the independent formula")
         ctx.correspond("pdu build/parse (alone, HRNP, HSTRP), mutated parsers, checksums", pairs)
+    verify_held(ctx, held)
 
 
 # ------------------------------------------------------------------------------------------------
+
+
+class ReplayCtx:
+    """minimal context to re-run the oracle on one input"""
+
+    def __init__(self):
+        self.failures = []
+
+    def fail(self, kind, i, what, expected=None, actual=None):
+        self.failures.append((kind, what, expected, actual))
+
+    def count(self, *a):
+        pass
+
+    def case(self, *a, **k):
+        pass
 
 
 def replay(obj):
@@ -2053,11 +2148,38 @@ def replay(obj):
         b = call(o.as_bytes) if not isinstance(o, Exc) and o is not None else o
         print("implementation: parse ->", repr(o) if isinstance(o, Exc) else type(o).__name__, "; re-encode ->", repr(b) if isinstance(b, Exc) or b is None else b.hex())
         still = 0 if (not isinstance(b, Exc) and b == data) else 1
+    elif "history" in inp and isinstance(inp.get("fields0"), str):
+        c = ReplayCtx()
+        st = call(start_state, inp["fields0"], inp.get("origin", "built"))
+        if isinstance(st, Exc):
+            print("cannot rebuild the starting object:", st)
+            return 1
+        print("start:", inp.get("origin", "built"), "from", inp["fields0"])
+        verify_state(c, st, {"fields0": inp["fields0"]}, None, True)
+        for i, step in enumerate(inp["history"]):
+            r = call(apply_step, st, step)
+            b, n = call(st.p.as_bytes), call(len, st.p)
+            print(f"step {i + 1}: {json.dumps(step)} -> fields {safe(pdu_tuple, st.p)}")
+            print(f"         as_bytes {repr(b) if isinstance(b, Exc) else b.hex()} len() {n!r}" + ("" if st.h is None else f" HRNP {safe(lambda: st.h.as_bytes().hex())}")
+                  + ("" if st.s is None else f" HSTRP {safe(lambda: st.s.as_bytes().hex())}"))
+            if isinstance(r, Exc):
+                c.fail("history-step-raises", None, f"step raised {r}")
+                break
+            if not verify_state(c, st, {"fields0": inp["fields0"]}, None, True):
+                break
+        for kf in c.failures:
+            print("oracle:", kf[0], "-", kf[1], "| expected", kf[2], "| actual", kf[3])
+        still = 1 if c.failures else 0
+        print("model: the model has no object state; run `echo 'hdap.mk <fields>' | lean/.lake/build/bin/drv_c12` for the fields printed at the failing step")
     elif isinstance(inp.get("fields"), str) and inp["fields"].split(" ")[0] in SERVICE:
-        p = call(build_from_tuple, inp["fields"])
+        p = call(build_from_tuple, inp["fields"], inp.get("text_as", "octets"))
         if isinstance(p, Exc):
             print("cannot rebuild the PDU from its field tuple:", p)
             return 1
+        c = ReplayCtx()
+        if inp.get("text_as"):
+            print("text handed to the constructor as", inp["text_as"])
+        check_built(c, p, dict(inp))
         b = call(p.as_bytes)
         print("implementation as_bytes:", repr(b) if isinstance(b, Exc) else b.hex(), "len():", call(len, p))
         if not isinstance(b, Exc):
@@ -2065,26 +2187,17 @@ def replay(obj):
             print("implementation from_bytes ->", repr(q) if isinstance(q, Exc) else safe(pdu_tuple, q))
             b2 = call(q.as_bytes) if not isinstance(q, Exc) and q is not None else q
             print("implementation re-serialised:", repr(b2) if isinstance(b2, Exc) or b2 is None else b2.hex())
-
-            class C:  # minimal context to re-run the oracle on this one PDU
-                failures = []
-
-                def fail(self, kind, i, what, expected=None, actual=None):
-                    self.failures.append((kind, what))
-
-            c = C()
-            bb = check_frame(c, p, input_of(p))
+            i2 = dict(input_of(p), fields=inp["fields"])
+            bb = check_frame(c, p, i2)
             if bb is not None:
-                check_roundtrip(c, p, bb, input_of(p))
-            import random
-
+                check_roundtrip(c, p, bb, i2)
             if inp.get("nesting") == "HRNP":
                 for s in range(20):
-                    check_hrnp(c, random.Random(s), p, bb, input_of(p), None)
+                    check_hrnp(c, random.Random(s), p, bb, i2, None)
             if inp.get("nesting") == "HSTRP":
                 for s in range(20):
-                    check_hstrp(c, random.Random(s), p, bb, input_of(p), None)
-            for kf in sorted(set(c.failures)):
+                    check_hstrp(c, random.Random(s), p, bb, i2, None)
+            for kf in sorted(set((k[0], k[1]) for k in c.failures)):
                 print("oracle:", kf)
             still = 1 if c.failures else 0
         else:
@@ -2098,8 +2211,8 @@ def replay(obj):
     return still
 
 
-def build_from_tuple(t: str):
-    """inverse of pdu_tuple on the real classes"""
+def build_from_tuple(t: str, text_as: str = "octets"):
+    """inverse of pdu_tuple on the real classes (text_as = "str": the TMP text goes to the constructor as a str)"""
     a = t.split(" ")
     ip = lambda s: None if s == "N" else L.RadioIP(subnet=int(s.split(":")[0]), radio_id=int(s.split(":")[1]))  # noqa
     unhx = lambda s: b"" if s == "-" else bytes.fromhex(s)  # noqa
@@ -2121,7 +2234,8 @@ def build_from_tuple(t: str):
     if a[0] == "TMP":
         T = L.tmp
         return T.TextMessageProtocol(opcode=T.TMPService(int(a[4])), is_reliable=a[1] == "1", is_confirmed=a[2] == "1", has_option=a[3] == "1", request_id=int(a[5]),
-                                     destination_ip=ip(a[6]), source_ip=ip(a[7]), text_data=unhx(a[8]), option_data=None if a[9] == "N" else unhx(a[9]),
+                                     destination_ip=ip(a[6]), source_ip=ip(a[7]),
+                                     text_data="".join(chr(c) for c in spec_utf16le_decode(unhx(a[8]))) if text_as == "str" else unhx(a[8]), option_data=None if a[9] == "N" else unhx(a[9]),
                                      result_code=None if a[10] == "N" else T.TMPResultCodes(int(a[10])), short_data=unhx(a[11]))
     if a[0] == "RCP":
         C = L.rcp
